@@ -10,6 +10,8 @@ import (
 	"sync/atomic"
 	"time"
 
+	"github.com/B1NARY-GR0UP/originium/pkg/verifhook"
+
 	"verif/harness/internal/dbx"
 	"verif/harness/internal/kvmap"
 	"verif/harness/internal/rec"
@@ -244,8 +246,12 @@ func cmdConc(args []string) int {
 	profile := fs.String("profile", "", "force a profile")
 	only := fs.Int("only", -1, "run only scenario i")
 	wd := fs.Duration("watchdog", 60*time.Second, "per-scenario watchdog")
+	perturb := fs.Int("perturb", 2, "0..3: seeded random delays at hook points outside the short critical sections")
 	_ = fs.Parse(args)
 	mustMkdir(*out)
+	if *perturb > 0 {
+		installPerturb(*seed, *perturb)
+	}
 	var specs []ConcSpec
 	for i := 0; i < *n; i++ {
 		r := rand.New(rand.NewSource(mix(*seed, i)))
@@ -288,4 +294,28 @@ func cmdConc(args []string) int {
 		"workers": maxW, "keys": maxKeys, "results": results, "specs": specs,
 	})
 	return 0
+}
+
+// installPerturb widens race windows: at yield points of the committer and the flusher (never
+// inside the oracle mutex, db.mu or levelManager.mu) the calling goroutine sometimes sleeps.
+// This only changes the schedule; verdicts never depend on it.
+func installPerturb(seed int64, level int) {
+	var mu sync.Mutex
+	r := rand.New(rand.NewSource(mix(seed, 4242)))
+	points := map[string]bool{"cm.lock.pre": true, "cm.decided": true, "cm.applied": true, "cm.enq.pre": true,
+		"cm.enq": true, "cm.done": true, "fl.take": true, "fl.flushed": true, "fl.compacted": true, "fl.removed": true}
+	verifhook.SetGate(func(point string, args ...any) {
+		if !points[point] {
+			return
+		}
+		mu.Lock()
+		x := r.Intn(100)
+		d := time.Duration(50+r.Intn(1500)) * time.Microsecond
+		mu.Unlock()
+		if x < 8*level {
+			time.Sleep(d)
+		} else if x < 20*level {
+			runtime.Gosched()
+		}
+	})
 }
